@@ -250,7 +250,9 @@ def gen_structure():
                     yield ("C", (len(iv), len(pt), ilo, ihi, order), (0, 4.5 if ihi > 3 else 3, (ti, tp) if order == 0 else (tp, ti)), "repr", False)
 
 
-NUMS = (0, 1e-05, 2.5e-05, 5e-05, 0.1, 1 / 3, 1.5, 2, 1234.5678, 1e15)
+TINY_REL = ((0.3, 0.1 + 0.2), (2.0 ** 31 + 0.5, 2.0 ** 31 + 0.5 + 2.0 ** -20), (1700000000.5, 1700000000.50001), (2.0 ** 40, 2.0 ** 40 + 2.0 ** -7),
+            (1000000000000.5, 1000000000000.505))
+NUMS = (-1234.5678, -2, -1.5, -1e-05, 0, 1e-05, 2.5e-05, 5e-05, 0.1, 1 / 3, 1.5, 2, 1234.5678, 1e15)
 
 
 def gen_numbers(thorough):
@@ -261,6 +263,12 @@ def gen_numbers(thorough):
                 if negzero and a != 0:
                     continue
                 yield ("B", (a, b), (a, b, (("I", "i", a, b, ((a, b, "x"),)), ("P", "p", a, b, ((a, "u"), (b, "v"))))), notation, negzero)
+        # legitimate intervals whose duration is tiny RELATIVE to their timestamps (one ulp at 0.3; 1e-6 .. 8e-3 s at 1.7e9 .. 1.1e12 s):
+        # the reader returns exactly what the file encodes
+        for a, b in TINY_REL:
+            yield ("B", (a, b), (a, b, (("I", "i", a, b, ((a, b, "x"),)), ("P", "p", a, b, ((a, "u"), (b, "v"))))), notation, False)
+            yield ("B", (a, b, "inside"), (a - 1, b + 1, (("I", "i", a - 1, b + 1, ((a - 1, a, "w"), (a, b, "x"), (b, b + 1, ""))),
+                                                    ("P", "p", a - 1, b + 1, ((a, "u"), (b, "v"))))), notation, False)
 
 
 def gen_duplicates():
